@@ -308,12 +308,28 @@ def run(rep: Report, tier: str) -> None:
 					rc.check(rn == want, f'{cls.name}.{name}:raise {rn}', (DI_PY, n.lineno), f'{cls.name}.{name} raises {rn}; the container contract is {want}', unparse(n)[:120])
 	vx = X(inv)
 	appends = []
-	for lp in nodes(vx, ast.For):
-		if not isinstance(lp.target, ast.Name):
-			continue
-		for cl in nodes(lp, ast.Call):
-			if isinstance(cl.func, ast.Attribute) and cl.func.attr == 'append' and cl.args and isinstance(cl.args[0], ast.Call) and unparse(cl.args[0].func) == 'self.resolve' and unparse(cl.args[0].args[0]) == lp.target.id:
-				appends.append((lp, cl))
+	# the currying loop may live in a private helper of the class that invoke calls and whose result it spreads (`curried = self.__curry_args(annos)`)
+	curry_members = [(inv, vx, None)]
+	for cl in nodes(vx, ast.Call):
+		if isinstance(cl.func, ast.Attribute) and isinstance(cl.func.value, ast.Name) and cl.func.value.id == 'self' and cl.func.attr not in ('resolve', 'can_resolve', 'invoke'):
+			g_ = di.method(cl.func.attr)
+			if g_ is not None and g_ is not inv:
+				curry_members.append((g_, X(g_), cl))
+	helper_result: dict[str, str] = {}  # list built in a helper -> the local of invoke that receives it
+	for g_, gx_, site in curry_members:
+		for lp in nodes(gx_, ast.For):
+			if not isinstance(lp.target, ast.Name):
+				continue
+			for cl in nodes(lp, ast.Call):
+				if isinstance(cl.func, ast.Attribute) and cl.func.attr == 'append' and cl.args and isinstance(cl.args[0], ast.Call) and unparse(cl.args[0].func) == 'self.resolve' and unparse(cl.args[0].args[0]) == lp.target.id:
+					if site is not None:
+						built = unparse(cl.func.value)
+						returned = [unparse(r_.value) for r_ in nodes(gx_, ast.Return) if r_.value is not None]
+						recv = [unparse(a.targets[0]) for a in nodes(vx, ast.Assign) if a.value is site and len(a.targets) == 1]
+						if returned != [built] or len(recv) != 1:
+							continue
+						helper_result[built] = recv[0]
+					appends.append((lp, cl, gx_))
 	# the same collection written as a comprehension: a filter (`if can_resolve`) keeps resolvable parameters *after* an unresolvable one, which is not a prefix
 	comps = []
 	for cp in nodes(FI(inv), (ast.ListComp, ast.GeneratorExp)):
@@ -327,14 +343,15 @@ def run(rep: Report, tier: str) -> None:
 	if not appends and not comps:
 		rc.skip('invoke-curry-prefix', inv.where, 'invoke no longer collects self.resolve(<annotation>) over the parameter annotations in a loop or comprehension')
 	curried = None
-	for lp, cl in appends:
+	for lp, cl, gx_ in appends:
 		v = lp.target.id
 		curried = unparse(cl.func.value)
-		fs = facts(vx, cl)
-		stops = [n for n in nodes(lp, (ast.Break, ast.Return)) if (f'self.can_resolve({v})', False) in facts(vx, n)]
-		skips = [n for n in nodes(lp, ast.Continue) if (f'self.can_resolve({v})', False) in facts(vx, n)]
+		curried = helper_result.get(curried, curried) if gx_ is not vx else curried
+		fs = facts(gx_, cl)
+		stops = [n for n in nodes(lp, (ast.Break, ast.Return)) if (f'self.can_resolve({v})', False) in facts(gx_, n)]
+		skips = [n for n in nodes(lp, ast.Continue) if (f'self.can_resolve({v})', False) in facts(gx_, n)]
 		rc.check((f'self.can_resolve({v})', True) in fs and bool(stops) and not skips, 'invoke-curry-prefix', inv.where, f'invoke must stop currying at the first parameter whose annotation is not resolvable (break) and append resolved instances in order (append under {fs}; stops: {len(stops)}, skips: {len(skips)})', unparse(lp)[:200])
-		it = deref(vx, lp.iter)
+		it = deref(gx_, lp.iter)
 		rc.check(not (isinstance(it, ast.Call) and unparse(it.func) in ('reversed', 'sorted', 'set')), 'invoke-curry-order', inv.where, f'the annotations must be walked in parameter order: iterates `{unparse(it)}`')
 	ret = [n for n in nodes(vx, ast.Return) if n.value is not None]
 	vararg = inv.node.args.vararg.arg if inv.node.args.vararg else None
